@@ -312,17 +312,23 @@ class Check:
         self.states += dist
         self.transitions += gen
         diags = {}
-        if diag:
-            for i in [i for i in range(n) if not accepted[i]][:5]:
-                fp = os.path.join(self.tmp, f"trace_diag_{i}.json")
-                with open(fp, "w") as f:
-                    json.dump([traces[i]], f)
-                r = run_tlc(spec, cfg_text + "INVARIANT Diag\n", workdir=self.tmp, workers=1, timeout=600, heap="2g", seed=self.seed,
-                            tag=f"diag_{i}", env={"TRACE_FILE": fp}, want_emitted=False)
-                pos = [int(m.group(1)) for line in r.printed for m in [_re.match(r'<<"AT", \d+, (\d+)>>', line)] if m]
-                last = max(pos) if pos else 0
+        rej = [i for i in range(n) if not accepted[i]][:300]
+        if diag and rej:
+            fp = os.path.join(self.tmp, f"trace_diag_{spec}.json")
+            with open(fp, "w") as f:
+                json.dump([traces[i] for i in rej], f)
+            r = run_tlc(spec, cfg_text + "INVARIANT Diag\n", workdir=self.tmp, workers=1, timeout=900, heap="3g", seed=self.seed,
+                        tag=f"diag_{spec}", env={"TRACE_FILE": fp}, want_emitted=False)
+            last = {}
+            for line in r.printed:
+                m = _re.match(r'<<"AT", (\d+), (\d+)>>', line)
+                if m:
+                    t_, l_ = int(m.group(1)), int(m.group(2))
+                    last[t_] = max(last.get(t_, 0), l_)
+            for j, i in enumerate(rej):
+                pos = last.get(j + 1, 0)
                 ev = traces[i]["events"]
-                diags[i] = {"matched_events": last - 1, "of": len(ev), "next_event": ev[last - 1] if 0 < last <= len(ev) else None}
+                diags[i] = {"matched_events": pos - 1, "of": len(ev), "next_event": ev[pos - 1] if 0 < pos <= len(ev) else None}
         return accepted, diags
 
     # --- verdict bookkeeping ---------------------------------------------------------------
